@@ -3,6 +3,7 @@
 C13.a no construct on the pipeline observes the iteration order of a set of strings in an order-sensitive way
 C13.b other nondeterminism sources (uuid, clocks, directory listings, id(), hash(), random) cannot flow into a
       specification, an identifier, the greedy result or the emitted file
+C13.c graph-library edge orders only over integer positions
 """
 import ast
 
